@@ -114,7 +114,7 @@ class C11(core.Check):
         '.8byte/little', 'value:negative', 'value:oversized', 'value:label', 'value:char', 'escape:\\n', 'escape:\\t',
         'escape:\\r', 'escape:\\\\', 'escape:\\xHH', 'escape:quote', 'other-quote-inside', 'quote:double', 'quote:single',
         'string:.byte', 'string:.cstr', 'string:.asciiz', 'string:embedded', 'string:empty', 'terminator:0',
-        'terminator:nonzero', 'fill:count-0', 'fill:count-1', 'fill:count-many', 'fill:value-negative', 'fill:value->255',
+        'terminator:nonzero', 'fill:count-0', 'fill:count-1', 'fill:count-many', 'fill:value-negative', 'fill:value->255', 'fill:value-forward-label', 'fill:value-backward-label',
         'zero:count-0', 'zero:count-many', 'zerountil:below', 'zerountil:just-below', 'zerountil:at', 'zerountil:above',
         'zero-byte-under-nonzero-image-fill', 'value:char-first-in-list', 'value:char-comma', 'value:char-first-then-operator', 'same-text-two-local-scopes']}
 
@@ -183,6 +183,17 @@ class C11(core.Check):
             elif r < 0.8:
                 cnt = rng.choice([0, 1, 2, 3, 7, 40, rng.randrange(0, 41)])
                 v = rng.choice([0, 1, 255, 256, -1, -300, 1000, 0x1234, rng.randrange(-500, 1000)])
+                if rng.random() < 0.3:
+                    # the value may be any expression, also one over a label that is defined further down
+                    nm_ = rng.choice(label_names[:3])
+                    k_ = rng.choice([0, 0, 1, 0x1F1])
+                    form_ = rng.choice(['{n}', 'LSB({n})', 'BYTE0({n})', '{n}+{k}', '({n}+{k})'])
+                    if '{k}' not in form_:
+                        k_ = 0
+                    lines.append({'k': 'fill', 'n': cnt, 'v': ('label', nm_, k_),
+                                  'text': f'.fill {lit(rng, cnt)}{rng.choice([",", ", ", " , "])}' + form_.replace('{n}', nm_).replace('{k}', lit(rng, k_)),
+                                  'tags': ['fill:count-' + ('0' if cnt == 0 else '1' if cnt == 1 else 'many'), 'fill:value-label'], 'sigk': 'fill'})
+                    continue
                 lines.append({'k': 'fill', 'n': cnt, 'v': v, 'text': f'.fill {lit(rng, cnt)}{rng.choice([",", ", ", " , "])}{lit(rng, v)}',
                               'tags': ['fill:count-' + ('0' if cnt == 0 else '1' if cnt == 1 else 'many'),
                                        'fill:value-' + ('negative' if v < 0 else '>255' if v > 255 else 'byte')], 'sigk': 'fill'})
@@ -238,9 +249,15 @@ class C11(core.Check):
             if l['k'] == 'bytes':
                 return bytes.fromhex(l['bytes'])
             if l['k'] == 'fill':
-                return bytes([l['v'] & 0xFF]) * l['size']
+                v_ = (labels[l['v'][1]] + l['v'][2]) if isinstance(l['v'], tuple) else l['v']
+                return bytes([v_ & 0xFF]) * l['size']
             return bytes(l['size'])
         layout.memory_map(res, bytes_of)
+        pos_ = {l['name']: i_ for i_, l in enumerate(lines) if l['k'] == 'label'}
+        for i_, l in enumerate(lines):
+            if l['k'] == 'fill' and isinstance(l['v'], tuple):
+                l['tags'].append('fill:value-forward-label' if pos_[l['v'][1]] > i_ else 'fill:value-backward-label')
+                l['v'] = list(l['v'])
         for l in lines:
             if isinstance(l.get('vals'), list):
                 l['vals'] = [list(v) if isinstance(v, tuple) else v for v in l['vals']]
